@@ -10,6 +10,7 @@ import (
 	"strings"
 
 	mxj "github.com/clbanning/mxj/v2"
+	rt "github.com/clbanning/mxj/v2/zzverifrt"
 )
 
 // ---------------------------------------------------------------- canonical dump
@@ -180,6 +181,15 @@ func withSpare(v interface{}) interface{} {
 		return l
 	}
 	return v
+}
+
+// globalWrites runs f with the package-variable access log on and returns the variables written.
+func globalWrites(f func()) []string {
+	rt.ResetGlobals()
+	rt.LogGlobals = true
+	defer func() { rt.LogGlobals = false }()
+	f()
+	return rt.WrittenGlobals()
 }
 
 func short(s string, n int) string {
